@@ -3,7 +3,7 @@ from ..core import *
 from .. import harness, gen, pyref
 from ..curve import *
 
-VO = ['Props/C01.vo']
+VO = ['Props/C01.vo', 'Tie/SqrtArk.vo']      # decode/encode call the table-driven square root: its tie to the source is part of the obligation
 FILES = ['Props/C01.v', 'Proofs/Codec.v', 'Proofs/Reach.v', 'Proofs/ByteLevel.v', 'Proofs/Final.v', 'Tie/Curve.v', 'Tie/Loops.v', 'Proofs/Instance.v']
 BUILDS = ('ark', 'min')
 
